@@ -1,4 +1,5 @@
 """C05 - only the seat on turn can play, only a card it holds; cards are conserved."""
+import copy
 from hypothesis import strategies as st
 from vf.common.core import Violation, check, guard, run_hypothesis
 from vf.common import be
@@ -51,6 +52,16 @@ def _board(bid, owner, declarer, dbl, vul, plays, positions, stats=None):
             if stats is not None:
                 stats.cls(f'fault position {"0" if i == 0 else "1" if i == 1 else "2-4" if i <= 4 else "5-51" if i < 52 else "52"}')
         if i < 52:
+            if i in positions and i % 2 == 0:
+                # a deep copy of a board in progress is an independent board: playing on the copy must not move a card
+                # of the original (search and learning code forks environments this way)
+                case = b.case({'fork_at': i})
+                clone = guard('deepcopy of a board in progress raises', case, copy.deepcopy, b.env)
+                guard('a deep copy of the table manager rejected the play the original accepts', case,
+                      clone.play_card_by_player, be.CARD[cards[i]], be.SEAT[b.m.turn])
+                b.check_conservation()
+                if stats is not None:
+                    stats.cls('forks: play continued on a deep copy, original re-checked')
             b.play(cards[i])
             b.check_conservation()
             _check_observer_hands(b)
